@@ -350,6 +350,10 @@ def run(ctx: common.Ctx):
             ctx.broken.append({"kind": "root-pattern", "what": "the root pattern of the bundled lexer is not one the model describes", "lstrip": lstrip, "pattern": pat})
     ctx.extra["bundled_root_pattern"] = impl_variant[False]
 
+    # ---- corpus templates first (so that a replay of a rendering difference leads its defect class) ----------------
+    for c in corpus["templates"]:
+        compare_template_set(ctx, bj, sj, c["templates"], c["main"], c.get("context", {}), c.get("trim_blocks", False), c.get("lstrip_blocks", False), "corpus")
+
     # ---- tie 1: isSpace == Python \s on every code point ---------------------------------------------
     if drv is not None:
         cps = [c for c in range(0x110000) if not 0xD800 <= c <= 0xDFFF]
@@ -418,6 +422,10 @@ def run(ctx: common.Ctx):
                     if n31diff <= 3:
                         ctx.extra.setdefault("lexer_2x_vs_3x_samples", []).append({"source": s, "bundled": a[:8], "stock": b[:8]})
     ctx.extra["lexer_streams_differing_between_2x_and_3x_not_caused_by_the_edit"] = n31diff
+    for s in ("ab\n  {%* include x %}\n", "a  {%- if x -%}  b {{ y }}"):
+        evs, tab = real_steps(Lexer(make_env(bj, {})), s, TSE)
+        ctx.sample({"lexer_source": s, "root_steps": evs, "tag_state_consumed": tab})
+    ctx.sample({"lineprefix": ["  ", "a\n\nb\r\n"], "do_lineprefix": do_lineprefix("a\n\nb\r\n", "  "), "property_reference": ref_prefix("  ", "a\n\nb\r\n")})
 
     # ---- tie 3 + search (ii-a): lineprefix -----------------------------------------------------------------
     lp_alpha = ["a", " ", "\n", "\r", "\u2028", "\x0b"]
@@ -768,8 +776,6 @@ def _jsonable(c):
 
 def run_differential(ctx, bj, sj, corpus_templates):
     rng = ctx.rng
-    for c in corpus_templates:
-        compare_template_set(ctx, bj, sj, c["templates"], c["main"], c.get("context", {}), c.get("trim_blocks", False), c.get("lstrip_blocks", False), "corpus")
     plan = [((False, False), 1300 if ctx.quick else 20000), ((True, False), 250 if ctx.quick else 3000),
             ((False, True), 250 if ctx.quick else 3000), ((True, True), 250 if ctx.quick else 3000)]
     feats = {}
@@ -824,5 +830,14 @@ def replay(ctx, path):
         got = do_lineprefix(rp["s"], rp["prefix"])
         print(json.dumps({"got": got, "expected": ref_prefix(rp["prefix"], rp["s"])}))
         return 0 if got == ref_prefix(rp["prefix"], rp["s"]) else 1
+    if stream == "lineprefix-nonstring":
+        from nunavut.jinja.jinja2.filters import do_lineprefix
+        val = eval(rp["value"], {"Markup": bj.Markup})  # noqa: S307 - our own repr()
+        try:
+            got = ["ok", str(do_lineprefix(val, " "))]
+        except Exception as e:  # noqa: BLE001
+            got = ["err", type(e).__name__]
+        print(json.dumps({"got": got, "expected": rp["expected"]}))
+        return 0 if got == list(rp["expected"]) else 1
     print("nothing to replay mechanically for stream", stream, "- see the replay file")
     return 1
